@@ -53,8 +53,11 @@ def run_case(binary, proto, scratch, idx, case):
         open(os.path.join(dirs[d], name), "w").write(name)
     vals = concrete(setting, kind, dirs)
     vals["BAD"] = BAD[setting]
+    vals["EMPTY"] = ""
     args_global, args_server = [], []
     env = {"HOME": dirs["home"], "XDG_CONFIG_HOME": dirs["xdg"]}
+    if kind == "nohome":
+        env = {"HOME": "", "XDG_CONFIG_HOME": ""}
     for a in case["assign"]:
         ch, v = a["ch"], vals[a["v"]]
         ini = "[server]\n%s = %s\n" % (setting, v)
@@ -132,7 +135,7 @@ def run_case(binary, proto, scratch, idx, case):
             c.close()
             ok = st == "ok" and int.from_bytes(b, "big", signed=True) == 0
             obs["observed"] = [t for t in ("V1", "V2") if vals[t] == ("true" if ok else "false")][0] if kind != "default" else ("V1" if ok else "default")
-            if kind == "alone" and not ok:
+            if kind in ("alone", "nohome") and not ok:
                 obs["observed"] = "default"
         elif setting == "client-whitelist":
             a = served(src="127.0.0.2")[1] is not None
@@ -162,7 +165,7 @@ def run_case(binary, proto, scratch, idx, case):
             time.sleep(0.2)
             dbg = any('"level":"DEBUG"' in ln or "DBG" in ln for ln in s.lines)
             obs["observed"] = [t for t in ("V1", "V2") if vals[t] == ("true" if dbg else "false")][0]
-            if kind in ("alone", "default") and not dbg:
+            if kind in ("alone", "default", "nohome") and not dbg:
                 obs["observed"] = "default"
         elif setting == "json-log":
             first = s.lines[0] if s.lines else ""
@@ -172,7 +175,7 @@ def run_case(binary, proto, scratch, idx, case):
             except ValueError:
                 js = False
             obs["observed"] = [t for t in ("V1", "V2") if vals[t] == ("true" if js else "false")][0]
-            if kind in ("alone", "default") and not js:
+            if kind in ("alone", "default", "nohome") and not js:
                 obs["observed"] = "default"
         elif setting == "debug-server-listen-addr":
             time.sleep(0.3)
